@@ -24,7 +24,12 @@ MANIFEST = {
          "readv/writev semantics (bytes taken/filled in iovec order) are an assumption of the model. Equality with POSIX and "
          "between routes is differential testing on this kernel/file system, not a proof; io_uring needs a kernel that can "
          "create an SQPOLL ring, otherwise that route is reported as skipped. Not modelled: file-system semantics, "
-         "uv_fs_chown family (not exercised: needs distinct uids), uv_fs_poll, FICLONE.",
+         "uv_fs_chown family (not exercised: needs distinct uids), uv_fs_poll, FICLONE. Interpretations in the route comparison: "
+         "times/inode/dev/blocks, directory sizes and directory nlink are not compared (mtime only when set explicitly by "
+         "utime/futime/lutime); uv_fs_sendfile: only success+count vs failure is compared (which errno a refused transfer reports "
+         "depends on the copy_file_range/sendfile/emulation chain; sendfile(2) is not POSIX) and copying a file onto itself is "
+         "skipped on every route; mkdtemp/mkstemp names are random, so only the template match, type and mode are compared and "
+         "the entry is renamed to a fixed name; readdir batches are compared as count + sorted names.",
  "design": "DESIGN.md §3 C11",
  "technique": "Lean 4 proof over executable model + correspondence (unit harness over fs.c with scripted syscalls) + "
               "4-route differential validation",
@@ -510,6 +515,10 @@ def judge_routes(prog, res, force_ref=None):
     live = [r for r in res if not (res[r][1][:1] == ["ROUTE-SKIPPED uring"])]
     for r in live:
         rc, lines, err = res[r]
+        if rc == -999:
+            k = len(lines)
+            return (f"routes-hang-{r}", f"route {r}: no completion within the timeout after {k} result lines; pending op "
+                                        f"`{(prog + ['(end of program)'])[min(k, len(prog))][:120]}` (request never called back / loop never returned)", r, None)
         if rc != 0:
             return (f"routes-crash-{r}", f"route {r}: harness exited {rc}: {err[-700:]}", r, None)
         bang = [l for l in lines if l.startswith("!")]
@@ -534,6 +543,8 @@ def judge_routes(prog, res, force_ref=None):
     op = opline.split()[0]
     got, want = (a + ["(none)"])[k], (b + ["(none)"])[k]
     sig = f"{odd}-{op}-differs"
+    if op == "read" and opline.split()[3] == "0" and {got, want} == {"read EISDIR data= tail=clean", "read 0 data= tail=clean"}:
+        sig = "read-single-empty-buf-on-dir-eisdir-vs-0"
     if odd == "uring" and op == "ftruncate" and got == "ftruncate EINVAL" and opline.split()[2] != "0":
         sig = "uring-ftruncate-nonzero-len"
     return (sig, f"route {odd} differs from {'/'.join(ref_routes)} at op {k} `{opline[:120]}`: {odd} -> `{got[:200]}`, "
